@@ -723,6 +723,15 @@ def c17(tier, seed):
     v.add_tlc(g)
     scs += s3
     v.exhaustive = True
+    # the verdict does not depend on the scale of the geometry: every fourth scenario again with all coordinates and query
+    # points 8192 times smaller (still exact in f32), where an absolute epsilon in place of an exact test would show
+    tiny = []
+    for sc in scs[seed % 4::4]:
+        t2 = dict(sc)
+        t2["id"] = str(sc["id"]) + "-tiny"
+        t2["den"] = sc["den"] * 8192
+        tiny.append(t2)
+    scs += tiny
     simple_validate("C17", v, scs, "all", "Trace_Contains")
     v.samples = [scs[0], scs[-1]]
     return v.finish()
